@@ -13,7 +13,8 @@ PROVED for every CNF, every `split_every` and both layouts: the text written is 
     \end{align}
 and  \begin{align} \top \end{align}  for the empty formula - distinct from the empty clause.
 NOT INTERPRETED (reported in the evidence): the loop that fills the literal-text table from the variable names (pure string
-processing).  The pseudo-Boolean rows (write_constraint) and to_latex_document are decided by the bounded tier only.
+processing).  The pseudo-Boolean rows (write_constraint) are decided by the bounded tier only.  to_latex_document (CNF) is
+proved below over this contract: titles, header values and user text are opaque events.
 """
 X = 'cnfgen/utils/latexoutput.py'
 
